@@ -10,6 +10,7 @@ mod ast;
 mod c09;
 mod check;
 mod cost;
+mod energy_account;
 mod gen;
 mod ops;
 mod optable;
@@ -345,6 +346,9 @@ fn run_program_property(cli: &Cli, prop: Prop) -> ! {
     structure::run_common_guarded(&report, cli.tier);
     if prop != Prop::C02 {
         structure::run(&cfg, &report, cli.tier);
+    }
+    if prop == Prop::C02 && cli.replay.is_none() {
+        energy_account::run(&report);
     }
     if prop == Prop::C13 && cli.replay.is_none() {
         // the chain-level part: v1 receive executions interrupted at invoke / upgrade and resumed
